@@ -838,6 +838,31 @@ def execute_steps_runs(lab, mon, rng, n):
                   seen.get("k2 outer with doc", ((None, None),))[0][0] == "outer text %d" % i, lambda: dict(seen={k: v[0] for k, v in seen.items()}))
 
 
+def process_cleanups(mon, rng):
+    """`python -m behave` in several process environments (optimised interpreter, ...): a cleanup that the environment registers in
+    its k-th hook call runs exactly once -- although it raises."""
+    from ..lab.subproc import Project
+    case = RB.gen_case(rng, gen={"max_features": 2, "p_nonpass": 0.2, "outcomes": ["fail", "error"], "p_stepless": 0.0}, p_stop=0.0, p_dry=0.0, tags=False)
+    k = rng.randrange(0, 8)
+    proj = Project(case["program"], {"cleanup_fault": {"k": k}})
+    try:
+        envname = RB.pick_environment(rng, mon, ["plain", "optimized", "optimized_by_variable", "warnings_as_errors_for_user_code"])
+        res = proj.run(case["args"] + ["-f", "plain"], environment=envname)
+    finally:
+        proj.close()
+    if res.get("timeout"):
+        mon.note("subprocess watchdog fired (inconclusive case)")
+        return
+    hooks = [e for e in res["events"] if e[0] == "hook"]
+    if len(hooks) <= k:
+        return
+    ran = [e for e in res["events"] if e[0] == "cleanup-ran"]
+    c2 = dict(case, cleanup_registered_in_hook_call=k, process_environment=envname)
+    mon.case(("process-cleanup", RB.strip_case(c2)), True)
+    mon.check("process.cleanup_runs_exactly_once", len(ran) == 1,
+              lambda: RB.witness(c2, hook=hooks[k][1:], times_run=len(ran), rc=res["rc"], stderr=res["stderr"][-400:]))
+
+
 def run(spec, mon):
     from ..lab.inproc import RunLab
     tier = spec.get("tier", "quick")
@@ -890,6 +915,8 @@ def run(spec, mon):
             mon.seen("userdata", "same_names_as_context_attributes")
         real_run(lab, mon, rng, case, sample=(i == 0 and shard == 0))
     execute_steps_runs(lab, mon, rng, 8 if tier == "quick" else 100)
+    for _ in range(2 if tier == "quick" else 30):
+        process_cleanups(mon, rng)
     two_runs_on_one_runner(lab, mon, rng, 4 if tier == "quick" else 150)
     if shard == 0:
         cleanup_error_then_skip(lab, mon, rng, 4)
